@@ -7,7 +7,7 @@
 (*   env SCOPE selects the scope.                                           *)
 (***************************************************************************)
 EXTENDS Naturals, Integers, Sequences, FiniteSets, SequencesExt,
-        FiniteSetsExt, TLC, Json, IOUtils, Text, Vlq, VlqW
+        FiniteSetsExt, TLC, Json, IOUtils, Text, Vlq, VlqW, IoScripts
 
 Scope == IOEnv.SCOPE
 
@@ -257,6 +257,19 @@ ViewObs(n) ==
        Writer("intr", n \div 2), Writer("chunky", 0), Writer("chunk7", 0), Writer("ok", 0)>>
 
 Prog(steps) == [steps |-> steps]
+
+ScriptWriters ==
+  LET ss == SetToSeq(ScriptsUpTo(3))
+  IN [i \in 1..Len(ss) |-> [op |-> "writer", r |-> 0, kind |-> "script", k |-> 0, script |-> ss[i]]]
+ScriptTrees ==
+  {CC(<<Raw("str", <<cA, cB>>), Orig(<<cA, NL>>), Raw("rawstr", <<cB>>)>>),
+   CC(<<Orig(<<cA>>), Raw("str", <<>>), Raw("buf", <<255, cA>>), Raw("rawbuf", <<cB, cB, cB>>)>>),
+   [k |-> "concat", mode |-> "boxed", ch |-> <<Orig(<<cA, cB>>)>>, adds |-> <<Raw("str", <<NL>>), Orig(<<cB>>)>>],
+   [k |-> "concat", mode |-> "typed", ch |-> <<CC(<<Raw("str", <<cA>>), Orig(<<cA>>)>>), CC(<<Raw("str", <<cB, cB>>)>>)>>],
+   Cached(CC(<<Raw("str", <<cA, cB>>), Raw("str", <<cA>>)>>)),
+   Replace(CC(<<Orig(<<cA, cB, cA>>), Raw("str", <<cB>>)>>), <<Repl(1, 2, <<cX, cX>>)>>),
+   CC(<<Replace(Orig(<<cA, cB, cA>>), <<Repl(1, 2, <<cX>>)>>), Box(Raw("rawstr", <<cA, cA>>)), Orig(<<cB>>)>>),
+   Raw("str", <<cA, cB, cA, cB, cA, cB>>), Orig(<<cA, cSC, cA, cSC, NL, cA>>)}
 
 SplitHeads == {<<97, 195>>, <<226, 130>>, <<226>>, <<240, 159, 152>>, <<240>>, <<97>>}
 SplitTails == {<<169>>, <<172, 98>>, <<130, 172>>, <<128>>, <<159, 152, 128, 98>>, <<98>>}
@@ -529,9 +542,20 @@ ReplaceInnerProg(inner, repls) ==
 InnerLen(t) ==
   IF t.k = "concat" THEN Len(t.ch[1].b) + Len(t.ch[2].b) ELSE Len(t.b)
 
+(* a named replacement without content (a deletion that carries a name) next  *)
+(* to a named replacement with content, same or different names, either order  *)
+C06NamedDel(n) ==
+  UNION {{<<ReplN(p, p + 1, c1, <<n1>>), ReplN(q, q + 1, c2, <<n2>>)>> :
+            n1 \in {NameRn, Name0}, n2 \in {NameRn, Name0},
+            c1 \in {<<>>}, c2 \in {<<cX>>, <<>>}} \cup
+         {<<ReplN(p, p + 1, <<cX>>, <<n1>>), ReplN(q, q + 1, <<>>, <<n2>>)>> :
+            n1 \in {NameRn, Name0}, n2 \in {NameRn, Name0}} :
+          p \in 0..(n - 1), q \in 0..(n - 1)} \ {<<>>}
+
 C06RScope ==
   IF Scope # "c06r" THEN {} ELSE
   UNION {{ReplaceInnerProg(x, r) : r \in C06Repls1(InnerLen(x))} : x \in C06Inners}
+  \cup UNION {{ReplaceInnerProg(x, r) : r \in {q \in C06NamedDel(InnerLen(x)) : q[1].s < q[2].s}} : x \in C06Inners}
   \cup UNION {{ReplaceInnerProg(x, r1 \o r2) :
                  r1 \in C06ReplsSlim(InnerLen(x)), r2 \in C06ReplsSlim(InnerLen(x))} :
                x \in C06Inners}
@@ -1065,7 +1089,15 @@ C15Docs ==
                   DocField("names", "null", 0), DocField("file", "null", 0),
                   DocField("x", "strs", <<<<>>>>)>>)}
 
-C15Scope == IF Scope # "c15" THEN {} ELSE {ToJsonProg(v) : v \in C15Values} \cup C15Docs
+(* SourceMap::to_writer against every writer script of IoM, for a few values *)
+C15ScriptValues ==
+  {JMap(AAAA, <<<<cA>>>>, <<<<cX>>>>, <<<<cB>>>>, <<>>, <<>>, <<>>),
+   JMap(<<SEMI, SEMI>>, <<>>, <<>>, <<>>, <<<<114, 47>>>>, <<<<34>>>>, <<U2028>>),
+   JMap(<<>>, <<>>, <<>>, <<>>, <<>>, <<>>, <<>>)}
+C15Scope ==
+  IF Scope # "c15" THEN {} ELSE
+  {ToJsonProg(v) : v \in C15Values} \cup C15Docs
+  \cup {Prog(<<[op |-> "to_json", map |-> v, scripts |-> SetToSeq(ScriptsUpTo(3))]>>) : v \in C15ScriptValues}
 
 -----------------------------------------------------------------------------
 (* ropes (C16): pairs of rope expressions over a piece table that contains  *)
@@ -1168,6 +1200,8 @@ ProgSet ==
     [] Scope = "c12wide" -> {Prog(<<[op |-> "codec_wide", segs |-> p]>>) : p \in WPairs \cup WTriples}
     [] Scope \in {"c09", "c09full"} -> C09Scope
     [] Scope = "c07" -> {Prog(<<Build(t)>> \o ViewObs(9)) : t \in ViewTrees}
+                        \* every writer script of IoM (answers to the first three calls) against a slim set of trees
+                        \cup {Prog(<<Build(t), Obs("buffer")>> \o ScriptWriters) : t \in ScriptTrees}
     [] OTHER -> {}
 
 VARIABLE prog
